@@ -4,22 +4,22 @@ import os
 
 VERIF = os.path.dirname(os.path.dirname(os.path.abspath(__file__)))
 WHAT = {
- "C01": "Layouts table (≤ 3 definers, all orders, 12 conftest kinds, two installed plugins, signature style varied) replayed, every column of every usage token; RandomLayouts.tla: 1 200 seeded random workspaces × 2 orders judged by the same layers; LSP tiers: textDocument/definition on 120 materialised layouts + 60 random workspaces",
+ "C01": "Layouts table (≤ 3 definers, all orders, 12 conftest kinds, two installed plugins, signature style varied) replayed, every column of every usage token; RandomLayouts.tla: 1 200 seeded random workspaces × 2 orders judged by the same layers; usage kinds incl. several names in one indirect string; LSP tiers: textDocument/definition on 120 materialised layouts + 60 random workspaces",
  "C02": "override-chain table (3 conftest levels × same file × plugin / third-party, both flags), every column of overriding def lines for goto + references; LSP tier: definition / references of the real binary on override names and self-named parameters; override chains of fixtures with unusual names (test_client, request_, non-ASCII), wrapped or not",
- "C03": "Extract.tla product (decorators incl. marks on fixtures, parameter kinds, bodies incl. several yields, docstrings) + CPython extraction + real analyzer, three-way; tests/test_project corpus; every analysis of the repository's own 710 tests (trace hook) validated by TLC against SuiteTrace.tla (oracle: CPython projection)",
+ "C03": "Extract.tla product (decorators incl. marks on fixtures, parameter kinds, bodies incl. several yields, docstrings) + CPython extraction + real analyzer, three-way; tests/test_project corpus; every analysis of the repository's own 710 tests (trace hook) validated by TLC against SuiteTrace.tla (oracle: CPython projection); decorator presets, alias-named parameters",
  "C04": "refs(D) = {u : goto(u) = D} on layout + chain tables, again after an in-place re-index (cleanup / fresh path); mirror; CLI unused; LSP tier: code lens = incoming calls = usages navigating to D (exact); random workspaces (library + LSP); own-import workspaces with a sibling test module",
- "C05": "four resolvers asked about the same (file, name) / (fixture, dependency); workspace-root variation; LSP tier: definition / implementation / prepare / hover / outgoing calls (prepared at a usage and on the definition) / inlay-hint type agree; random workspaces (library + LSP)",
+ "C05": "four resolvers asked about the same (file, name) / (fixture, dependency); workspace-root variation; LSP tier: definition / implementation / prepare / hover / outgoing calls (prepared at a usage and on the definition) / inlay-hint type agree; random workspaces (library + LSP); workspaces whose conftest.py is a symbolic link (agreement only)",
  "C06": "every history (L ≤ 3) on long-lived vs fresh twin; B2 traces validated by TLC; LSP tier: 150 histories sent to the real binary (warm / burst / plain) vs a fresh server, all handlers, incl. random histories of 5..9 notifications and an earlier editing session; the repository's own test-suite validated against SuiteTrace.tla (oracle: fresh database); LspTrace.tla on every session",
- "C07": "three History.tla configurations (main, scan-as-event, conftest chain): every interleaving of edits / cached queries (incl. cycle detection) / close / evict, warm vs cold twin on disk; real pressure eviction; LSP tiers (main + chain family with didOpen of unmodified documents as an event); B2 traces",
- "C08": "snapshot under every registration order (layout table) + cycle reports over orders and fresh processes' hash seeds (dep-graph table); random workspaces; own-import workspaces under two registration orders; one large workspace served by 4 fresh processes",
+ "C07": "four History.tla configurations (main incl. an unparsable importer, scan-as-event, conftest chain, closes of MODIFIED documents with the cold twin closing too): every interleaving of edits / cached queries (incl. cycle detection) / close / evict, warm vs cold twin on disk; real pressure eviction; LSP tiers (main + chain family with didOpen of unmodified documents as an event); B2 traces",
+ "C08": "snapshot under every registration order (layout table) + cycle reports over orders and fresh processes' hash seeds (dep-graph table); random workspaces; own-import workspaces under two registration orders; one large workspace served by 4 fresh processes; field-level snapshots of override chains under every permutation of the files; own-import workspaces six times each (fresh hash seeds) incl. the unused list",
  "C09": "Conc.tla exhaustive + 1 500 simulated behaviours × {natural, one-shard} + random schedules on real threads (incl. files requesting one name twice); after quiescence every file is re-analysed once more and the reverse index must mirror; every lock log validated by TLC against ConcTrace.tla",
  "C10": "scan worker ∥ editor on the same file: simulated behaviours + both coarse orders, then every text as one further change; real binary racing the scan (also with the document being a symlink, opened AND edited during the scan, below a directory named like an exclude pattern)",
- "C11": "hostile (slot, string) documents × ≈ 500 library calls each; stale-position sessions (handlers warmed first; conftest above goes unparsable); documents with CR / CRLF / mixed line terminators; config / metadata sessions",
- "C12": "lock traces of all entry points (natural + one-shard; unparsable round; import graphs in memory and on disk incl. real scan, plugin propagation, never-analysed modules; cache pressure: 2 050 files, eviction while requests run), Locks.tla on the extracted nesting templates, ImportWalk liveness, scheduled notification ∥ requests",
+ "C11": "hostile (slot, string) documents × ≈ 500 library calls each; stale-position sessions (handlers warmed first; conftest above goes unparsable); documents with CR / CRLF / mixed line terminators; config / metadata sessions (import-hook .pth files); very large hostile definitions through the real binary",
+ "C12": "lock traces of all entry points (natural + one-shard; unparsable round; import graphs in memory and on disk incl. real scan, plugin propagation, never-analysed modules; cache pressure: 2 050 files, eviction while requests run), Locks.tla on the extracted nesting templates, ImportWalk liveness, scheduled notification ∥ requests; chains of pass-through overrides that spell nothing through every handler",
  "C13": "product tree (12 directory names × 11 file names, ≤ 2 levels, plus a pulled-in module) × 8 root locations × 5 exclude sets × 3 fault modes × 4 ways of naming the root (canonical, symbolic link, link below an ignored name, ..), real scan",
  "C14": "import cases (spellings, packages, cycles, aliases, one package referenced twice, bare relative imports) + venv layouts (incl. what an entry module pulls in, and a package entry point whose __init__ only re-exports a module outside the package) materialised and scanned",
  "C15": "token layouts × LF/CRLF with same-length decoy re-analysis; LSP structural rules incl. no-final-newline documents, go-to-implementation and call-hierarchy ranges on fixtures with parameters (vs CPython parameter positions); published diagnostics must cover the identifier in the LATEST text after edits that move the fixtures",
- "C16": "dependency graphs × orders (+3 fresh databases each) and scope cases (incl. third-party provider, self-requesting override next to a dependent); per-file report = workspace report restricted to the file; disjoint cycles over colliding name sets; histories with an earlier query (asked on the empty index, files then arriving on the scan path; asked after the first file)",
+ "C16": "dependency graphs × orders (+3 fresh databases each) and scope cases (incl. third-party provider, self-requesting override next to a dependent); per-file report = workspace report restricted to the file; disjoint cycles over colliding name sets, unknown names in front of the cycle-continuing parameter; histories with an earlier query (asked on the empty index, files then arriving on the scan path; asked after the first file)",
  "C17": "library cases with exact positions (binding forms incl. structural pattern matching); quick-fix / completion-edit round trips through the binary validated with CPython; code actions asked by a LATE client (warning of an earlier version)",
  "C18": "completion requests to the real binary (20 line roles × kinds × scopes × declared sets × stacked decorators; workspace plugin, doubly provided name, sibling asked first, incomplete forms typed above the other fixtures, mixin classes, dynamic scope)",
  "C19": "sessions of the real binary: histories × 27 configuration variants, three-way with Lsp.tla and a library twin, published findings compared as multisets (a version with two findings of one code on one fixture), one session in five through a symbolically linked workspace; every session's message log validated by TLC against LspTrace.tla",
